@@ -223,6 +223,27 @@ func concOp(r *rng, family string, priv int) string {
 		default:
 			return "dot:0:1" // matrix . matrix
 		}
+	case "tmul":
+		// general contractions with a SHARED rank-3 operand (index 4 of this family's shared world is
+		// a (2,3,3) tensor), through TensorMul and through the dispatching Dot; readers of that operand
+		switch r.intn(8) {
+		case 0:
+			return fmt.Sprintf("tmul:%d:4:1:1", priv)
+		case 1:
+			return fmt.Sprintf("tmul:4:%d:2:0", priv)
+		case 2:
+			return "tmul:4:0:2:0"
+		case 3:
+			return "dot:4:3"
+		case 4:
+			return "dot:0:4"
+		case 5:
+			return fmt.Sprintf("at:4:%d,%d,%d", r.intn(2), r.intn(3), r.intn(3))
+		case 6:
+			return "tmul:0:4:1:1"
+		default:
+			return fmt.Sprintf("reduce:sum:4:%d", r.intn(3))
+		}
 	case "dotvm":
 		// vector . matrix: Dot transposes its matrix operand in place and takes it back afterwards
 		if r.intn(2) == 0 {
@@ -289,7 +310,7 @@ func concOp(r *rng, family string, priv int) string {
 }
 
 // (arith first: the first racing goroutines of the process then meet the lazily initialised scalar pools)
-var concFamilies = []string{"arith", "access", "reduce", "lin", "dot", "dotvm", "shapeops", "format", "errpath", "blasuse", "blas", "private"}
+var concFamilies = []string{"arith", "access", "reduce", "lin", "dot", "dotvm", "tmul", "shapeops", "format", "errpath", "blasuse", "blas", "private"}
 
 func genC18(tier string, r *rng, emit func(string)) {
 	reps := 6
@@ -303,7 +324,7 @@ func genC18(tier string, r *rng, emit func(string)) {
 			for _, g := range []int{2, 4, 8, 16} {
 				for k := 0; k < reps; k++ {
 					dt := []string{"f64", "f32", "i"}[r.intn(3)]
-					if fam == "lin" || fam == "dot" || fam == "dotvm" || fam == "errpath" || fam == "blas" {
+					if fam == "lin" || fam == "dot" || fam == "dotvm" || fam == "tmul" || fam == "errpath" || fam == "blas" {
 						dt = []string{"f64", "f32"}[r.intn(2)]
 					}
 					progs := make([]string, g)
@@ -323,7 +344,11 @@ func genC18(tier string, r *rng, emit func(string)) {
 						}
 						progs[i] = strings.Join(ops, ";")
 					}
-					emit(fmt.Sprintf("conc %s %d %s %s %s", fam, procs, dt, shared, strings.Join(progs, "|")))
+					sw := shared
+					if fam == "tmul" {
+						sw = "new:rm:3,3:1;new:rm:3,3:11;T:1:1,0;new:rm:3,4:21;new:rm:3:31;new:rm:2,3,3:51"
+					}
+					emit(fmt.Sprintf("conc %s %d %s %s %s", fam, procs, dt, sw, strings.Join(progs, "|")))
 				}
 			}
 		}
